@@ -196,17 +196,23 @@ Qed.
 
 Lemma prop_key_len sub kd : lenN (prop_key sub kd) = 6 + lenN kd.
 Proof.
-  unfold prop_key. rewrite !lenN_app. change (lenN (var_slice pset_magic)) with 5.
+  unfold prop_key, prop_key_id. rewrite !lenN_app. change (lenN (var_slice pset_magic)) with 5.
   change (lenN [b8 sub]) with 1. lia.
 Qed.
 
+Lemma parse_prop_key_id id sub kd v : sub < 256 -> id <> [] -> lenN id < two64 ->
+  parse_prop (mk_kpair PsetProprietary (prop_key_id id sub kd) v) = Some (mk_pd id sub kd v).
+Proof.
+  intros Hs Hne Hl. unfold parse_prop, prop_key_id, var_slice. cbn [k_data k_val]. rewrite <- !app_assoc.
+  rewrite p_varint_app by exact Hl.
+  destruct (N.eqb_spec (lenN id) 0) as [Z|_]; [destruct id; [congruence | unfold lenN in Z; cbn [length] in Z; lia]|].
+  unfold lenN. rewrite takeN_app.
+  cbn [app]. rewrite n8_b8, N.mod_small by exact Hs. reflexivity.
+Qed.
 Lemma parse_prop_key sub kd v : sub < 256 ->
   parse_prop (mk_kpair PsetProprietary (prop_key sub kd) v) = Some (mk_pd pset_magic sub kd v).
 Proof.
-  intro Hs. unfold parse_prop, prop_key, var_slice. cbn [k_data k_val]. rewrite <- !app_assoc.
-  rewrite p_varint_app by (rewrite magic_len; unfold two64; lia).
-  rewrite magic_len. cbn [N.eqb]. rewrite <- magic_len. unfold lenN. rewrite takeN_app.
-  cbn [app]. rewrite n8_b8, N.mod_small by exact Hs. reflexivity.
+  intro Hs. apply parse_prop_key_id; [exact Hs | discriminate | rewrite magic_len; unfold two64; lia].
 Qed.
 
 Lemma tbl_ok_parts tbl : tbl_ok tbl = true ->
@@ -276,7 +282,7 @@ Lemma emit_fold tbl (t : sec) : tbl_ok tbl = true ->
   slots_wf (length pre) suf t = true ->
   emit_slots (length pre) suf t = ROk kps ->
   fold_step tbl (mk_sec (vpre ++ repeat [] (length suf)) (lpre ++ repeat [] (length suf)) P U) kps
-  = ROk (mk_sec (vpre ++ norm_vals suf vsuf) (lpre ++ lsuf) P U).
+  = ROk (mk_sec (vpre ++ norm_vals suf vsuf) (lpre ++ norm_lists suf lsuf) P U).
 Proof.
   intro T. induction suf as [|sl suf IH]; intros pre vpre lpre tvp tlp vsuf lsuf P U kps Et L1 L2 L3 L4 Ev El Lv Ll W Em.
   - destruct vsuf; [|discriminate]. destruct lsuf; [|discriminate]. cbn in Em. inversion Em; subst. reflexivity.
@@ -293,14 +299,14 @@ Proof.
     assert (Step : fold_step tbl (mk_sec (vpre ++ [] :: repeat [] (length suf)) (lpre ++ [] :: repeat [] (length suf)) P U) a
                    = ROk (mk_sec ((vpre ++ [match sl_k sl with SS k al => if s_emits k al b then b else [] | MS _ => b end])
                                    ++ repeat [] (length suf))
-                                 ((lpre ++ [l]) ++ repeat [] (length suf)) P U)).
+                                 ((lpre ++ [match sl_k sl with MS m => m_emit m l | SS _ _ => l end]) ++ repeat [] (length suf)) P U)).
     { rewrite <- !app_assoc. cbn [app].
       unfold PsetV2.slot_wf in W1. unfold emit_slot in Ea. rewrite Vt, Lt in *.
       destruct (sl_k sl) as [k al|m] eqn:K.
       - apply andb_true_iff in W1 as [W1 Wk]. apply andb_true_iff in W1 as [Ws Wl].
         destruct l; [|discriminate]. unfold PsetV2.s_wf in Ws.
         destruct (s_emits k al b) eqn:Emits.
-        + destruct (s_panics k b); [discriminate|]. inversion Ea; subst a; clear Ea.
+        + inversion Ea; subst a; clear Ea.
           rewrite orb_false_r in Wk. apply keyid_eqb_eq in Wk.
           apply andb_true_iff in Ws as [Ws _]. unfold cres_bytes_eqb in Ws.
           destruct (s_dec k (s_emit k b)) as [b0| |] eqn:D; try discriminate. apply bytes_eqb_eq in Ws. subst b0.
@@ -313,11 +319,11 @@ Proof.
         apply andb_true_iff in W1 as [Wb Wm]. destruct b; [|discriminate]. apply keyid_eqb_eq in Wk.
         inversion Ea; subst a; clear Ea. unfold PsetV2.m_wf in Wm.
         destruct (m_replay m [] (m_emit m l)) as [l'| |] eqn:Rp; try discriminate. apply entries_eqb_eq in Wm. subst l'.
-        rewrite Et. apply (ms_fold pre sl suf m _ lpre _ P U T' Wk K L2 (m_emit m l) [] l Rp). }
+        rewrite Et. apply (ms_fold pre sl suf m _ lpre _ P U T' Wk K L2 (m_emit m l) [] (m_emit m l) Rp). }
     rewrite Step. cbn [cbind].
     replace (S (length pre)) with (length (pre ++ [sl])) in W2, Eb by (rewrite app_length; cbn; lia).
     rewrite (IH (pre ++ [sl]) _ _ (tvp ++ [b]) (tlp ++ [l]) vsuf lsuf P U kb); try assumption.
-    + cbn [norm_vals]. rewrite <- !app_assoc. reflexivity.
+    + cbn [norm_vals norm_lists]. rewrite <- !app_assoc. reflexivity.
     + rewrite <- app_assoc. exact Et.
     + rewrite !app_length. cbn. lia.
     + rewrite !app_length. cbn. lia.
@@ -342,7 +348,6 @@ Proof.
     { unfold PsetV2.slot_wf in W1. unfold emit_slot. destruct (sl_k sl) as [k al|m].
       - apply andb_true_iff in W1 as [W1 _]. apply andb_true_iff in W1 as [Ws _]. unfold PsetV2.s_wf in Ws.
         destruct (s_emits k al (val_at i t)); [|exists []; split; [reflexivity|constructor]].
-        destruct (s_panics k (val_at i t)); [discriminate|].
         apply andb_true_iff in Ws as [_ Wl]. eexists. split; [reflexivity|]. constructor; [|constructor].
         unfold frame_ok. destruct (sl_ekey sl) as [x|x]; cbn [mk_kp_id k_type k_data k_val key_small] in *.
         + apply andb_true_iff in K1 as [K1 _]. rewrite K1, Wl. rewrite maxKeyLen_val. reflexivity.
@@ -354,20 +359,27 @@ Proof.
     split; [reflexivity | apply Forall_app; split; assumption].
 Qed.
 
+Lemma eff_id_nonempty id : eff_id id <> [].
+Proof. destruct id; discriminate. Qed.
+
 Lemma props_fold tbl V L U : forall ps P,
   forallb (prop_wf tbl) ps = true ->
-  fold_step tbl (mk_sec V L P U) (map prop_kp ps) = ROk (mk_sec V L (P ++ ps) U).
+  fold_step tbl (mk_sec V L P U) (map prop_kp ps) = ROk (mk_sec V L (P ++ map norm_pd ps) U).
 Proof.
   induction ps as [|p ps IH]; intros P W; [cbn; rewrite app_nil_r; reflexivity|].
   cbn [forallb] in W. apply andb_true_iff in W as [Wp W]. unfold prop_wf in Wp.
-  apply andb_true_iff in Wp as [Wp _]. apply andb_true_iff in Wp as [Wp Wf].
-  apply andb_true_iff in Wp as [Wid Ws]. apply bytes_eqb_eq in Wid. apply N.ltb_lt in Ws.
+  apply andb_true_iff in Wp as [Wp Wfr]. apply andb_true_iff in Wp as [Ws Wf]. apply N.ltb_lt in Ws.
+  assert (Hl : lenN (eff_id (pd_id p)) < two64).
+  { apply frame_ok_parts in Wfr as (_ & Hk & _). unfold prop_kp in Hk. cbn [k_data] in Hk.
+    unfold prop_key_id, var_slice in Hk. rewrite !lenN_app, maxKeyLen_val in Hk. unfold two64. lia. }
   cbn [map fold_step]. unfold PsetV2.sec_step, prop_kp. cbn [k_type k_data k_val]. rewrite N.eqb_refl.
-  rewrite parse_prop_key by exact Ws. cbn [pd_id pd_sub pd_kd]. rewrite bytes_eqb_refl.
-  destruct (find_slot (KProp (pd_sub p)) tbl); [discriminate|]. cbn [cbind].
-  unfold add_prop. cbn [s_vals s_lists s_props s_unks].
-  replace (mk_pd pset_magic (pd_sub p) (pd_kd p) (pd_val p)) with p by (destruct p; cbn in *; subst; reflexivity).
-  rewrite IH by exact W. rewrite <- app_assoc. reflexivity.
+  rewrite parse_prop_key_id by (try exact Ws; try exact Hl; apply eff_id_nonempty). cbn [pd_id pd_sub pd_kd].
+  assert (Add : ROk (add_prop (mk_pd (eff_id (pd_id p)) (pd_sub p) (pd_kd p) (pd_val p)) (mk_sec V L P U))
+                = ROk (mk_sec V L (P ++ [norm_pd p]) U)) by reflexivity.
+  destruct (bytes_eqb (eff_id (pd_id p)) pset_magic).
+  - destruct (find_slot (KProp (pd_sub p)) tbl); [discriminate|]. rewrite Add. cbn [cbind].
+    rewrite IH by exact W. rewrite <- app_assoc. reflexivity.
+  - rewrite Add. cbn [cbind]. rewrite IH by exact W. rewrite <- app_assoc. reflexivity.
 Qed.
 
 Lemma unks_fold tbl V L P : forall us U,
